@@ -64,6 +64,7 @@ pub struct ObjString { _p: u8 }
 impl ObjString {
     pub uninterp spec fn blen(&self) -> nat;
     pub uninterp spec fn is_cb(&self, i: int) -> bool;
+    pub uninterp spec fn bytes(&self) -> Seq<u8>;      // the UTF-8 byte sequence (bytes().len() == blen())
     #[verifier::external_body]
     pub fn len(&self) -> (r: usize) ensures r == self.blen(), r <= isize::MAX { unimplemented!() }   // std: a str is at most isize::MAX bytes
     #[verifier::external_body]
@@ -87,8 +88,18 @@ pub fn str_slice(s: &ObjString, a: usize, b: usize) -> (r: StrSlice)
     requires a <= b <= s.blen(), s.is_cb(a as int), s.is_cb(b as int),
     ensures r.src == *s, r.a == a, r.b == b,
 { unimplemented!() }
+// `slice == other` on str: byte comparison (std, trusted)
 #[verifier::external_body]
-pub fn str_slice_eq(x: &StrSlice, y: &ObjString) -> (r: bool) { unimplemented!() }
+pub fn str_slice_eq(x: &StrSlice, y: &ObjString) -> (r: bool)
+    ensures r == (x.src.bytes().subrange(x.a, x.b) == y.bytes())
+{ unimplemented!() }
+pub broadcast axiom fn axiom_bytes_len(s: ObjString)
+    ensures #[trigger] s.bytes().len() == s.blen();
+// UTF-8 is self-synchronising: where a valid UTF-8 string occurs inside another as bytes, it starts and ends on
+// character boundaries (a property of the encoding; std's str::find relies on it too). Assumed.
+pub broadcast axiom fn axiom_utf8_match_on_boundaries(s: ObjString, p: ObjString, i: int)
+    requires 0 <= i && i + p.blen() <= s.blen() && #[trigger] s.bytes().subrange(i, i + p.blen()) == p.bytes() && p.blen() > 0
+    ensures s.is_cb(i) && s.is_cb(i + p.blen());
 // std facts about str::is_char_boundary (documented behaviour of std, assumed)
 pub broadcast axiom fn axiom_cb_ends(s: ObjString)
     ensures s.is_cb(0) && s.is_cb(#[trigger] s.blen() as int);
@@ -173,6 +184,39 @@ impl Value {
     //@  ensures r matches Some(g) ==> *self == Value::ObjString(g)
     //@end
 }
+
+
+// ------------------------------------------------------------------ C13: String.find against the byte-level reference model
+// the reference model: does `sub` occur in `s` at byte offset i
+pub open spec fn occurs_at(s: ObjString, sub: ObjString, i: int) -> bool {
+    0 <= i && i + sub.blen() <= s.blen() && s.bytes().subrange(i, i + sub.blen()) == sub.bytes()
+}
+//@fn file=yarel/src/core.rs path=check_num_args ret=r props=C13,C02
+//@  rewrite R1
+//@  ensures r is Ok <==> num_args == expected
+//@  ensures r matches Err(e) ==> e.kind is TypeError
+//@end
+
+//@fn file=yarel/src/core.rs path=string_find ret=r props=C13,C02
+//@  rewrite R1 R3 R16
+//@  subst ".try_as_obj_string().expect(\"Expected ObjString.\")" => ".try_as_obj_string().unwrap()"
+//@  subst "&string[i..i + substring.len()]" => "str_slice(string.as_str(), i, i + substring.len())"
+//@  subst "slice == substring.as_str()" => "str_slice_eq(&slice, substring.as_str())"
+//@  subst "Value::Number(i as f64)" => "number_of_usize(i)"
+//@  requires old(vm).slot(2) is ObjString
+//@  ensures r matches Err(e) ==> e.kind is IndexError || e.kind is TypeError || e.kind is ValueError
+//@  ensures r is Ok ==> num_args == 2 && (old(vm).slot(1) matches Value::ObjString(sub) && old(vm).slot(2) matches Value::ObjString(s) && value_int(old(vm).slot(0)) matches Some(n) && sub.obj().blen() > 0 && 0 <= norm(n, s.obj().blen() as int) < s.obj().blen() && s.obj().is_cb(norm(n, s.obj().blen() as int)))
+//@  ensures r matches Ok(v) ==> (old(vm).slot(1) matches Value::ObjString(sub) && old(vm).slot(2) matches Value::ObjString(s) && value_int(old(vm).slot(0)) matches Some(n) && { let st = norm(n, s.obj().blen() as int); ((v is None) ==> forall|i: int| st <= i ==> !occurs_at(s.obj(), sub.obj(), i)) && ((!(v is None)) ==> (value_int(v) matches Some(i) && st <= i && occurs_at(s.obj(), sub.obj(), i) && forall|j: int| st <= j < i ==> !occurs_at(s.obj(), sub.obj(), j))) })
+//@  at body.start broadcast use axiom_cb; broadcast use axiom_value_int_number; broadcast use axiom_bytes_len; broadcast use axiom_utf8_match_on_boundaries;
+//@  loop 0 iter it
+//@  loop 0 invariant string.obj().blen() <= isize::MAX, substring.obj().blen() > 0, start < string.obj().blen(), num_args == 2
+//@  loop 0 invariant old(vm).slot(2) == Value::ObjString(string) && old(vm).slot(1) == Value::ObjString(substring) && string.obj().is_cb(start as int)
+//@  loop 0 invariant value_int(old(vm).slot(0)) matches Some(n) && norm(n, string.obj().blen() as int) == start
+//@  loop 0 invariant it.snapshot.end == string.obj().blen(), it.snapshot.start == start
+//@  loop 0 invariant forall|j: int| start <= j < start + it.index@ ==> !occurs_at(string.obj(), substring.obj(), j)
+//@  loop 0 invariant vm.slot(0) == old(vm).slot(0) && vm.slot(1) == old(vm).slot(1) && vm.slot(2) == old(vm).slot(2)
+//@  at loop0.start broadcast use axiom_cb; broadcast use axiom_bytes_len; broadcast use axiom_utf8_match_on_boundaries; broadcast use axiom_value_int_number;
+//@end
 
 // ------------------------------------------------------------------ C18 / C13: native iterators
 //@struct file=yarel/src/object.rs name=ObjStringIter
